@@ -342,3 +342,6 @@ NONTRIVIAL = "one obligation per input source call site and per line-handling cl
 EXPLANATION += (
     " R8 shares C15-R9 (a child gets the interpreter's stdin only when the script says so). R9 shares C02-R4/R5 (a line that was read stays intact until stored)."
 )
+EXPLANATION += (
+    " R10 shares C03-R5 / R5c (the statements after an `if` stay reachable in the pruner's graph) and C14-R2 (the stdin route reads the script to the end)."
+)
